@@ -424,6 +424,10 @@ func fillStruct(sv reflect.Value, fields []FieldT, vals []FieldV) {
 	}
 }
 
+// spareCap > 0: slices are built with that much unused capacity behind their elements (what
+// append leaves behind); set by the runner around fillStruct.
+var spareCap int
+
 func fillField(f reflect.Value, ft FieldT, v FieldV) {
 	if ft.Kind == KEmbed {
 		fillStruct(f, ft.Sub, v.Elems[0])
@@ -454,7 +458,7 @@ func fillField(f reflect.Value, ft FieldT, v FieldV) {
 		if n == 0 && v.Nil {
 			return
 		}
-		s := reflect.MakeSlice(f.Type(), n, n)
+		s := reflect.MakeSlice(f.Type(), n, n+spareCap)
 		for k := 0; k < n; k++ {
 			set(s.Index(k), k)
 		}
@@ -463,7 +467,7 @@ func fillField(f reflect.Value, ft FieldT, v FieldV) {
 		if n == 0 && v.Nil {
 			return
 		}
-		s := reflect.MakeSlice(f.Type(), n, n)
+		s := reflect.MakeSlice(f.Type(), n, n+spareCap)
 		for k := 0; k < n; k++ {
 			p := reflect.New(f.Type().Elem().Elem())
 			set(p.Elem(), k)
